@@ -11,12 +11,14 @@
 (* Performance idioms (see GseHeader!With): values are bound once through  *)
 (* singleton quantifiers; the CRC is computed at the shallow Consume level.*)
 (***************************************************************************)
-EXTENDS Integers, FiniteSets, TLC, Json, IOUtils, GseSender, TraceRx
+EXTENDS Integers, FiniteSets, TLC, Json, IOUtils, GseSender, TraceRx, TraceTab
 
 VARIABLES l,        \* next line of Rec
           scn,      \* current scenario number (from the last begin event)
           tx,       \* abstract sender state (GseSender)
           rx,       \* abstract receiver state (TraceRx)
+          tb,       \* table coverage and the abstract memory of C17 runs (TraceTab)
+          evals,    \* number of individual cases judged (family / run events count all their members)
           bad,      \* sequence of verdicts (capped)
           nbad,     \* total number of verdicts
           hits,     \* clause name -> number of events on which its antecedent held
@@ -24,7 +26,7 @@ VARIABLES l,        \* next line of Rec
           crcCache, \* memo of CRCs already computed: <<pdu, tl, ptype, label>> -> crc
           crcTab    \* the CRC table derived once from the bitwise definition (see GseCrc)
 
-vars == <<l, scn, tx, rx, bad, nbad, hits, classes, crcCache, crcTab>>
+vars == <<l, scn, tx, rx, tb, evals, bad, nbad, hits, classes, crcCache, crcTab>>
 
 \* ------------------------------------------------------------- utilities
 IsOkRes(r) == r.t \in {"completed", "fragmented"}
@@ -240,34 +242,44 @@ CrcFor(e) ==
            ELSE CrcJob(<<e.pdu, tl, e.ptype, SubSeq(e.wire, 8, 7 + ll)>>, PduBytes(e.pdu))
   ELSE IF e.ev = "decap" THEN RxCrcFor(e, rx, crcTab)
   ELSE IF e.ev = "crc_vec" THEN
+       \* short vectors: the bitwise definition itself; long ones: the derived table
        [need |-> TRUE, key |-> <<>>, new |-> FALSE,
-        val |-> CrcFieldsBitwise(e.tl, e.ptype, e.label, e.pdu)]
+        val |-> IF e.pdu_ref = 0 THEN CrcFieldsBitwise(e.tl, e.ptype, e.label, e.pdu)
+                ELSE CrcFields(crcTab, e.tl, e.ptype, e.label, PduBytes(e.pdu_ref))]
   ELSE NoCrc
 
 \* ------------------------------------------------------------------- step
 Empty == [bad |-> {}, hits |-> {}, cls |-> <<"none">>]
+W1 == [weight |-> 1]     \* default weight of an event
 
 Step(e, crc) ==
   CASE e.ev = "begin" ->
-         [Empty EXCEPT !.cls = <<"begin", e.drv>>] @@ [tx |-> TxInit, rx |-> RxBegin(e)]
+         [Empty EXCEPT !.cls = <<"begin", e.drv>>] @@ [tx |-> TxInit, rx |-> RxBegin(e), tb |-> TabBegin(e)] @@ W1
     [] e.ev = "encap" ->
-         JudgeEncap(e, tx, crc) @@ [rx |-> RxAfterEncap(rx, e, tx)]
+         JudgeEncap(e, tx, crc) @@ [rx |-> RxAfterEncap(rx, e, tx), tb |-> tb] @@ W1
     [] e.ev = "encap_frag" ->
-         JudgeFrag(e) @@ [tx |-> tx, rx |-> RxAfterFrag(rx, e)]
+         JudgeFrag(e) @@ [tx |-> tx, rx |-> RxAfterFrag(rx, e), tb |-> tb] @@ W1
     [] e.ev = "preview" ->
-         JudgePreview(e, FALSE) @@ [tx |-> tx, rx |-> rx]
+         JudgePreview(e, FALSE) @@ [tx |-> tx, rx |-> rx, tb |-> tb] @@ W1
     [] e.ev = "frag_preview" ->
-         JudgePreview(e, TRUE) @@ [tx |-> tx, rx |-> rx]
+         JudgePreview(e, TRUE) @@ [tx |-> tx, rx |-> rx, tb |-> tb] @@ W1
     [] e.ev = "cfg" ->
-         [Empty EXCEPT !.cls = <<"cfg", e.op>>] @@ [tx |-> TxCfg(tx, e.op, e.n), rx |-> rx]
+         [Empty EXCEPT !.cls = <<"cfg", e.op>>] @@ [tx |-> TxCfg(tx, e.op, e.n), rx |-> rx, tb |-> tb] @@ W1
+    [] e.ev = "hdr_dec_run" -> JudgeHdrDec(e, tb) @@ [tx |-> tx, rx |-> rx]
+    [] e.ev = "hdr_enc_run" -> JudgeHdrEnc(e, tb) @@ [tx |-> tx, rx |-> rx]
+    [] e.ev = "ext_new_run" -> JudgeExtNew(e, tb) @@ [tx |-> tx, rx |-> rx]
+    [] e.ev = "crc_vec"     -> JudgeCrcVec(e, crc) @@ [tx |-> tx, rx |-> rx, tb |-> tb] @@ W1
+    [] e.ev = "utils_rt"    -> JudgeUtilsRt(e) @@ [tx |-> tx, rx |-> rx, tb |-> tb] @@ W1
+    [] e.ev = "utils_gen"   -> JudgeUtilsGen(e) @@ [tx |-> tx, rx |-> rx, tb |-> tb] @@ W1
+    [] e.ev = "mem_op"      -> JudgeMemOp(e, tb) @@ [tx |-> tx, rx |-> rx] @@ W1
     [] OTHER ->
-         RxStep(e, rx, tx, crc) @@ [tx |-> tx]
+         RxStep(e, rx, tx, crc) @@ [tx |-> tx, tb |-> tb] @@ W1
 
 MaxBad == 400
 
 Init ==
   /\ l = 1 /\ scn = 0
-  /\ tx = TxInit /\ rx = RxInit
+  /\ tx = TxInit /\ rx = RxInit /\ tb = TabInit /\ evals = 0
   /\ bad = <<>> /\ nbad = 0
   /\ hits = [c \in {} |-> 0]
   /\ classes = {}
@@ -285,6 +297,8 @@ Consume ==
         IN /\ scn' = sc
            /\ tx' = j.tx
            /\ rx' = j.rx
+           /\ tb' = j.tb
+           /\ evals' = evals + j.weight
            /\ crcCache' = IF crc.new
                           THEN (IF Cardinality(DOMAIN crcCache) > 300 THEN (crc.key :> crc.val)
                                 ELSE (crc.key :> crc.val) @@ crcCache)
@@ -303,9 +317,11 @@ Finish ==
   /\ l = Len(Rec) + 1
   /\ JsonSerialize(IOEnv.OUT,
        [ consumed |-> l - 1, lines |-> Len(Rec), nbad |-> nbad, bad |-> bad,
-         hits |-> hits, nclasses |-> Cardinality(classes), scenarios |-> scn ])
+         hits |-> hits, nclasses |-> Cardinality(classes), scenarios |-> scn, evals |-> evals,
+         hdr_dec_words |-> tb.hdrNext, hdr_enc_triples |-> tb.encCount,
+         ext_new_ids |-> [d \in 0..10 |-> tb.extNext[d]] ])
   /\ l' = l + 1
-  /\ UNCHANGED <<scn, tx, rx, bad, nbad, hits, classes, crcCache, crcTab>>
+  /\ UNCHANGED <<scn, tx, rx, tb, evals, bad, nbad, hits, classes, crcCache, crcTab>>
 
 Next == Consume \/ Finish
 Spec == Init /\ [][Next]_vars
